@@ -9,6 +9,8 @@ import Uquic.Proofs.PNGen
 import Uquic.Proofs.KeyPhase
 import Uquic.Proofs.Packet
 import Uquic.Proofs.KeyPhaseSys
+import Uquic.Proofs.PNSpace
+import Uquic.Model.Crypto.UInitial
 import Uquic.Model.Crypto.RfcConst
 import Uquic.Generated.Handshake
 
@@ -119,6 +121,42 @@ theorem pn_seq_consecutive (g : SeqGen) : g.pop.2.2 = g.next ∧ g.pop.1.next = 
   simp [SeqGen.pop, SeqGen.peek]
 
 example : (SkipGen.new 0 2 8 0).run [1, 0, 0, 0, 0, 0] = [(false, 0), (false, 1), (false, 2), (true, 4), (false, 5), (false, 6)] := by decide
+
+/-! ## 2b. packet numbers across the whole life of a number space (Retry) -/
+
+section Spaces
+open Uquic.Model.PNSpace Uquic.Proofs.PNSpace
+
+/-- `pn_never_reused_across_retry`: over ANY history of `PopPacketNumber` and `ResetForRetry` on the
+    application-data space (whose 0-RTT key survives a Retry) — any draws, any number of Retries — the
+    packet numbers handed out strictly increase: `ResetForRetry` seeds the new space from the old space's
+    own next number, so no number (hence no AEAD nonce) is ever used twice under the unchanged key. -/
+theorem pn_never_reused_across_retry (g : SkipGen) (hwf : g.next ≤ g.nextToSkip) (ops : List AppOp)
+    (hd : ∀ op ∈ ops, match op with | .pop d => 0 ≤ d | .retry d => 0 ≤ d) :
+    List.Pairwise (· < ·) (runApp g ops) :=
+  (runApp_props ops g hwf hd).2
+
+/-- the same for a sequential space (Initial): numbers keep increasing across a Retry (RFC 9000 §17.2.5.3) -/
+theorem pn_seq_never_reused_across_retry (g : SeqGen) (ops : List SeqOp) :
+    List.Pairwise (· < ·) (runSeq g ops) :=
+  (runSeq_props ops g).2
+
+/-- the handler's `ResetForRetry` is the seeding rule the theorems are about: each space continues from its
+    OWN next number -/
+theorem reset_for_retry_seeds_each_space (s s' : Spaces) (d : Int) (h : s.resetForRetry d = some s') :
+    s'.app = SkipGen.new s.app.peek skipInitialPeriod skipMaxPeriod d ∧
+    (∃ g, s.initial = some g ∧ s'.initial = some { next := g.peek }) ∧ s'.handshake = s.handshake := by
+  unfold Spaces.resetForRetry at h
+  split at h
+  · cases h
+  · rename_i g hg
+    simp only [Option.some.injEq] at h
+    subst h
+    exact ⟨rfl, ⟨g, hg, rfl⟩, rfl⟩
+
+example : runApp (SkipGen.new 0 2 8 0) [.pop 0, .pop 0, .pop 0, .pop 1, .retry 0, .pop 0, .pop 0] = [0, 1, 2, 4, 5, 6] := by decide
+
+end Spaces
 
 /-! ## 3. nonces -/
 
@@ -516,6 +554,37 @@ example (n0 a0 m0 c0 : Bytes) : ∀ n a c m, (oneShot n0 a0 m0 c0).dec n a c = s
   split at h
   · rename_i hc; simp only [Option.some.injEq] at h; exact ⟨⟨hc.1, hc.2.1, h.symm⟩, hc.2.2⟩
   · cases h
+
+/-! ### the uQUIC Initial serialisation glue (`uPacketPacker.appendInitialPacketPayload`) -/
+
+open Uquic.Model.UInitial in
+/-- whatever the frames and the spec'd packet size, after the glue's padding the header-protection sample
+    exists (packet number + payload ≥ 4 bytes, RFC 9001 §5.4.2), so `protect_roundtrip` applies -/
+theorem uinitial_padding_sufficient (pnLen : Nat) (payload : Bytes) (hdrLen packetSize : Nat) :
+    4 ≤ pnLen + (padPayload pnLen payload hdrLen packetSize).length := by
+  unfold padPayload
+  simp only
+  generalize (if packetSize > hdrLen + payload.length + 16 then
+    payload ++ zeros (packetSize - (hdrLen + payload.length + 16)) else payload) = p1
+  split
+  · simp [zeros]; omega
+  · omega
+
+open Uquic.Model.UInitial in
+/-- the Length field the glue writes covers exactly the protected packet: packet number, padded payload and
+    AEAD tag — the bytes from the packet number to the end of what `encryptPacket` produced — so the peer's
+    `wire.ParsePacket` cuts the datagram at the end of the tag -/
+theorem uinitial_length_covers_packet (k : Keys) (tmpl payload : Bytes) (pn packetSize pnLen : Nat) (pkt : Bytes)
+    (htag : ∀ n a m, (k.aead.enc n a m).length = m.length + 16)
+    (hlen : pnLen + 2 ≤ tmpl.length)
+    (h : protect k (setLength tmpl pnLen (lengthField pnLen (padPayload pnLen payload tmpl.length packetSize))) pn
+          (padPayload pnLen payload tmpl.length packetSize) = some pkt) :
+    pkt.length = (tmpl.length - pnLen) + lengthField pnLen (padPayload pnLen payload tmpl.length packetSize) := by
+  have := protected_length k _ _ pn pkt htag h
+  rw [this]
+  unfold setLength lengthField
+  simp only [List.length_append, List.length_take, List.length_drop, List.length_cons, List.length_nil]
+  omega
 
 end Protection
 
